@@ -168,7 +168,9 @@ type fxCase struct {
 	a, b, c  *big.Int
 }
 
-func (c fxCase) key() string { return c.op + "|" + c.rule + "|" + c.a.String() + "|" + c.b.String() + "|" + c.c.String() }
+func (c fxCase) key() string {
+	return c.op + "|" + c.rule + "|" + c.a.String() + "|" + c.b.String() + "|" + c.c.String()
+}
 
 // observe the cases of one unit three ways and fold identical observations into one event
 func fxRun(wk *worker, t NT, cases []fxCase) []FxEvent {
